@@ -79,6 +79,8 @@ func runC06(c *Ctx) {
 	c.Min("C06.U1", 2)
 
 	c.hashLeafContracts("C04.K1")
+	// content addressing rests on the canonical form: the JCS constant/table rules are part of this check
+	c.jcsRules()
 	c.Assume("axioms: go-multihash Encode/Decode are inverse and Decode rejects malformed input; base64.RawURLEncoding is the unpadded URL alphabet; SHA-2 collision resistance; JCS∘json.Marshal injective on JSON values")
 }
 
@@ -196,6 +198,8 @@ func runC03(c *Ctx) {
 	c.isValidModelMultihashContract("C03.G1")
 	c.Min("C03.G1", 7)
 	c.hashLeafContracts("C04.K1")
+	// the suffix is a hash of the canonical form: the JCS constant/table rules are part of this check
+	c.jcsRules()
 	c.Assume("collision resistance of SHA-2; Transform implements RFC 8785 (C05 decides only its constants)")
 }
 
